@@ -774,7 +774,14 @@ func fnShape(f *ssa.Function) string {
 func ruleConnEvents(c *Ctx, rule string) {
 	p := c.p
 	serve := p.MustFn("goat.handler.serve")
-	rd, _ := p.readResult(serve)
+	var rd ssa.Instruction
+	if rl := p.serverReadLoopFn(); rl == serve {
+		r, _ := p.readResult(serve)
+		rd = r
+	} else {
+		// the read loop lives in a callee: the events must surround the call
+		rd = p.oneCall(serve, p.fnKey(rl)+" ", false).(ssa.Instruction)
+	}
 	begins := p.statsEventCalls(serve, "ConnBegin", false)
 	okB := len(begins) == 1
 	if okB {
